@@ -152,6 +152,7 @@ fn dfs(w: &mut World, spec: &SeqSpec, shm: &Shm, path: &mut Vec<usize>) {
             return;
         }
         if pid == 0 {
+            crate::watchdog::arm();
             path.push(i);
             unsafe {
                 IS_CHILD = true;
@@ -163,6 +164,8 @@ fn dfs(w: &mut World, spec: &SeqSpec, shm: &Shm, path: &mut Vec<usize>) {
             }
             unsafe { libc::_exit(0) };
         } else {
+            // this process only waits now
+            crate::watchdog::pause();
             let mut st: libc::c_int = 0;
             loop {
                 let r = unsafe { libc::waitpid(pid, &mut st, 0) };
@@ -178,6 +181,10 @@ fn dfs(w: &mut World, spec: &SeqSpec, shm: &Shm, path: &mut Vec<usize>) {
                 let mut p = path.clone();
                 p.push(i);
                 shm.add(C_CHILD_CRASH, 1);
+                if let Some(m) = crate::watchdog::describe_exit(st) {
+                    record(shm, spec, &p, "C09.livelock", &m);
+                    continue;
+                }
                 let what = if libc::WIFSIGNALED(st) {
                     format!("child process died with signal {}", libc::WTERMSIG(st))
                 } else {
@@ -360,6 +367,7 @@ pub fn replay_path_isolated(spec: &Arc<SeqSpec>, path: &[usize]) -> Option<(Stri
     let shm = Shm::new(1024, 1 << 16);
     let pid = unsafe { libc::fork() };
     if pid == 0 {
+        crate::watchdog::arm();
         let r = replay_path(spec, path);
         let v = match r {
             Some((c, d)) => json!({"clause": c, "detail": d}),
@@ -370,6 +378,9 @@ pub fn replay_path_isolated(spec: &Arc<SeqSpec>, path: &[usize]) -> Option<(Stri
     }
     let mut st: libc::c_int = 0;
     unsafe { libc::waitpid(pid, &mut st, 0) };
+    if let Some(m) = crate::watchdog::describe_exit(st) {
+        return Some(("C09.livelock".into(), m));
+    }
     if !(libc::WIFEXITED(st) && libc::WEXITSTATUS(st) == 0) {
         return Some(("crash.abort".into(), format!("process died (wait status {})", st)));
     }
@@ -430,12 +441,18 @@ pub fn explore(spec: SeqSpec, workers: usize, deadline: Option<std::time::Instan
                 // worker and its remaining tasks with it
                 let tp = unsafe { libc::fork() };
                 if tp == 0 {
+                    crate::watchdog::arm();
                     run_task(&spec, &shm, prefix);
                     unsafe { libc::_exit(0) };
                 }
                 let mut st: libc::c_int = 0;
                 unsafe { libc::waitpid(tp, &mut st, 0) };
                 if !(libc::WIFEXITED(st) && libc::WEXITSTATUS(st) == 0) {
+                    if let Some(m) = crate::watchdog::describe_exit(st) {
+                        record(&shm, &spec, &prefix, "C09.livelock", &m);
+                        shm.add(C_TASKS_DONE, 1);
+                        continue;
+                    }
                     let what = if libc::WIFSIGNALED(st) {
                         format!("process died with signal {} while replaying the prefix or closing", libc::WTERMSIG(st))
                     } else {
